@@ -181,6 +181,18 @@ C02edit_A(p, t, q) ==
 C02edit(p, t, q) ==
   C02edit_A(p, t, q) => (q.ro.step = p.ro.step /\ q.ro.state \in {"BeforeStepUpgrade", "StepUpgrade", "StepTrafficRouting"})
 
+\* the natural advance from step k to k+1 happens only after step k's batch, under the CURRENT plan and revision, has been
+\* reported ready by the BatchRelease: some batch reported Ready called for at least as many new-revision pods as step k of
+\* the current plan does (ghost.readyRepl, reset when the revision or the workload size changes)
+C02adv_A(p, t, q) ==
+  (/\ t.base = "ro" /\ p.ro.exists /\ q.ro.exists /\ p.ro.hasSub /\ q.ro.hasSub
+   /\ p.ro.phase = "Progressing" /\ p.ro.reason = "InRolling" /\ q.ro.reason = "InRolling"
+   /\ p.ro.state = "StepReady" /\ q.ro.step = p.ro.step + 1 /\ q.ro.state = "BeforeStepUpgrade"
+   /\ ~UserJump(p) /\ ~PlanEdited(p) /\ ~RollbackSeen(p) /\ ~Superseded(p)
+   /\ p.wl.exists /\ p.wl.R > 0)
+C02adv(p, t, q) ==
+  C02adv_A(p, t, q) => p.ghost.readyRepl >= PlannedOf(p.plan[p.ro.step], p.wl.R)
+
 \* while the rollout is marked paused the Rollout controller makes no forward progress
 C02pause_A(p, t, q) ==
   (/\ t.base = "ro" /\ p.user.paused /\ Rolling(p) /\ q.ro.exists
@@ -297,7 +309,7 @@ Terminal(s) ==
   /\ (s.user.rev >= 2 \/ s.user.rolledBack)            \* a release was requested
   /\ \/ ~s.ro.exists
      \/ s.ro.phase = "Disabled"
-     \/ s.ro.phase = "Healthy" /\ s.ro.reason = "Completed"
+     \/ s.ro.phase = "Healthy" /\ s.ro.reason = "Completed" /\ ~Superseded(s)   \* completed for the revision the user asked for last
 
 C05(s) ==
   Terminal(s) =>
@@ -374,7 +386,9 @@ BatchReadyReally(s) ==
 \* Ready is reported only if the workload really satisfies the batch
 C11a_A(p, t, q) ==
   (/\ t.base = "br" /\ q.br.exists /\ p.br.exists
-   /\ q.br.phase = "Progressing" /\ q.br.bstate = "Ready" /\ p.br.bstate # "Ready"
+   /\ q.br.phase = "Progressing" /\ q.br.bstate = "Ready"
+   \* Ready is newly reported, or it is kept while the status starts to refer to a changed plan (observed hash)
+   /\ (p.br.bstate # "Ready" \/ (~p.br.hashOk /\ q.br.hashOk))
    /\ q.br.noNeed = -1)
 C11a(p, t, q) ==
   C11a_A(p, t, q)
@@ -449,7 +463,7 @@ C18tr(p, t, q) == C18tr_A(p, t, q) => RoutesWithdrawn(q.net)
 (***************************************************************************)
 (* evaluation of everything on one transition                              *)
 (***************************************************************************)
-ActionProps == {"C01a", "C01ro", "C01b", "C01c", "C02", "C02pause", "C02promote", "C02edit",
+ActionProps == {"C01a", "C01ro", "C01b", "C01c", "C02", "C02pause", "C02promote", "C02edit", "C02adv",
                 "C03a", "C03b", "C03c", "C09", "C10a", "C11a", "C11b", "C11c", "C11d", "C18a", "C18br", "C18tr"}
 StateProps  == {"C04a", "C04b", "C04c", "C05", "C05tr", "C07", "C10b", "C18b"}
 MidProps    == {"C04a", "C04b", "C04c"}   \* also evaluated after every single API write (crash points)
@@ -464,6 +478,7 @@ ActHolds(name, p, t, q) ==
     [] name = "C02" -> C02(p, t, q)      [] name = "C02pause" -> C02pause(p, t, q)
     [] name = "C02promote" -> C02promote(p, t, q)
     [] name = "C02edit" -> C02edit(p, t, q)
+    [] name = "C02adv" -> C02adv(p, t, q)
     [] name = "C03a" -> C03a(p, t, q)    [] name = "C03b" -> C03b(p, t, q)
     [] name = "C03c" -> C03c(p, t, q)    [] name = "C09" -> C09(p, t, q)
     [] name = "C10a" -> C10a(p, t, q)
@@ -479,6 +494,7 @@ ActAnte(name, p, t, q) ==
     [] name = "C02" -> C02_A(p, t, q)      [] name = "C02pause" -> C02pause_A(p, t, q)
     [] name = "C02promote" -> C02promote_A(p, t, q)
     [] name = "C02edit" -> C02edit_A(p, t, q)
+    [] name = "C02adv" -> C02adv_A(p, t, q)
     [] name = "C03a" -> C03a_A(p, t, q)    [] name = "C03b" -> C03b_A(p, t, q)
     [] name = "C03c" -> C03c_A(p, t, q)    [] name = "C09" -> C09_A(p, t, q)
     [] name = "C10a" -> C10a_A(p, t, q)
